@@ -9,6 +9,6 @@ if ! git -C $R diff --quiet; then echo "$R has uncommitted changes"; exit 2; fi
 git -C $R apply "$d/patch.diff" || { echo "patch does not apply"; exit 2; }
 trap 'git -C '$R' checkout -- . ; git -C '$R' clean -fdq xandikos 2>/dev/null' EXIT
 for p in "$@"; do
-  ./devcheck $p --tier ${TIER:-quick} > /var/tmp/devseed_$p.txt 2>&1; rc=$?
-  echo "$(basename $d) $p exit=$rc violations=$(grep -c '^VIOLATION' /var/tmp/devseed_$p.txt) $(grep -A1 '^VIOLATION' /var/tmp/devseed_$p.txt | grep -v '^VIOLATION\|^--' | sed 's/ at step.*//' | cut -c1-160 | sort | uniq -c | sort -rn | head -3 | tr '\n' ';')"
+  ./devcheck $p --tier ${TIER:-quick} > /var/tmp/devseed_$(basename $d)_$p.txt 2>&1; rc=$?
+  echo "$(basename $d) $p exit=$rc violations=$(grep -c '^VIOLATION' /var/tmp/devseed_$(basename $d)_$p.txt) $(grep -A1 '^VIOLATION' /var/tmp/devseed_$(basename $d)_$p.txt | grep -v '^VIOLATION\|^--' | sed 's/ at step.*//' | cut -c1-160 | sort | uniq -c | sort -rn | head -3 | tr '\n' ';')"
 done
